@@ -700,14 +700,14 @@ def fwd (s : State) : Bool := (s.regs .discForward).truthy
 
 def pickFirst (s : State) (xs : List String) : Val :=
   match (if fwd s then xs.head? else xs.getLast?) with
-  | some n => if n == "" then .operand .null else .str n
+  | some n => .str n
   | none => .operand .null
 
 def stepName (s : State) (xs : List String) (cur : Val) : Option Val :=
   match cur with
   | .str c =>
     match (if fwd s then nextName xs c else prevName xs c) with
-    | some n => some (if n == "" then .operand .null else .str n)
+    | some n => some (.str n)
     | none => some (.operand .null)
   | _ => none
 
@@ -856,7 +856,7 @@ def execInstr (img : Image) (s : State) (i : Instr) : State :=
       match stepName s xs (s.read b) with
       | some v => s.setReg .result v
       | none => s.fault "DNEXTM with a non-string position"
-    | none => s.fault "DNEXTM on an unknown set"
+    | none => s.setReg .result (.operand .null)
   | .out io a =>
     match io with
     | .literal => { s with unnamed := s.unnamed ++ [s.read a] }
